@@ -140,6 +140,73 @@ def c08_spec():
     return {'bins': bins, 'run': run}
 REGISTRY['C08'] = c08_spec()
 
+def c14_spec():
+    import re, glob as _glob, shutil, json
+    from concurrent.futures import ThreadPoolExecutor
+    import check as CK
+    def bins(tier):
+        return [Bin('c14_threads.cpp', 'tsan', [], name='c14_threads-tsan', link_model=False)]
+    def run(p, tier, seed, t0):
+        bs = bins(tier)
+        ok, dt = build_all(bs)
+        b = bs[0]
+        fold = Fold(); fail = None
+        if not b.path:
+            fold_ = fold
+            return finish(p, tier, seed, fold, {'level': 'exploration', 'rule': ''}, t0, harness_fail='monitor does not build: ' + (b.error or '')[-400:])
+        rundir = os.path.join(CK.CACHE, 'run', p)
+        if os.path.isdir(rundir): shutil.rmtree(rundir)
+        os.makedirs(rundir)
+        launches = 48 if tier == 'quick' else 1500
+        tcounts = [2, 4, 8, 16]
+        jobs = [(i, tcounts[i % 4]) for i in range(launches)]
+        def one(job):
+            i, nt = job
+            log = os.path.join(rundir, '%05d.jsonl' % i)
+            env = {'TSAN_OPTIONS': 'halt_on_error=0:report_signal_unsafe=0:log_path=%s' % os.path.join(rundir, 'tsan_%05d' % i)}
+            cmd = [b.path, '--seed', str(seed * 100000 + i), '--out', log, '--arg', 'threads=%d' % nt, '--arg', 'rounds=%d' % (2 if tier == 'quick' else 3), '--arg', 'yield=%d' % (i % 3 != 0)]
+            rc, out, to = CK.run_proc(cmd, log, 600, env=env)
+            if to: rc, out, to = CK.run_proc(cmd, log, 600, env=env)
+            return i, nt, cmd, log, rc, out, to
+        # 4 launches at a time: each launch itself uses up to 16 threads; oversubscription is wanted (it varies the interleavings)
+        with ThreadPoolExecutor(6) as ex:
+            results = list(ex.map(one, jobs))
+        sigs = set()
+        for i, nt, cmd, log, rc, out, to in results:
+            if to: fail = (fail or '') + ' watchdog fired twice: ' + ' '.join(cmd); continue
+            if rc not in (0, 66):
+                fold.viol('crash/c14_threads/rc%d' % rc, float('inf'), {'cmd': ' '.join(cmd), 'output_tail': out[-1500:]})
+            if not fold.add_file(log) and rc in (0, 66): fail = (fail or '') + ' no summary from ' + ' '.join(cmd)
+        for k in list(fold.counters):
+            if k.startswith('sig/'): sigs.add(k[4:]); del fold.counters[k]
+        # ThreadSanitizer reports, counted from the log files (not from exit codes), deduplicated by the innermost manif frames of both stacks
+        nrep = 0; dedup = {}
+        for f in sorted(_glob.glob(os.path.join(rundir, 'tsan_*'))):
+            txt = open(f, errors='replace').read()
+            for blk in txt.split('==================')[0:]:
+                if 'WARNING: ThreadSanitizer' not in blk: continue
+                nrep += 1
+                kind = re.search(r'WARNING: ThreadSanitizer: ([^(\n]+)', blk).group(1).strip().replace(' ', '-')
+                frames = re.findall(r'#\d+ (manif::[^\n]*?) (/repo/include/[^ \n]+)', blk)
+                inrepo = '/repo/include' in blk
+                where = sorted(set(re.sub(r'<.*', '', fr[0])[:50] + '@' + os.path.basename(fr[1]).split(':')[0] for fr in frames[:1] + frames[-1:])) if frames else ['no-manif-frame']
+                key = 'tsan-%s/%s' % (kind, '+'.join(where)[:120])
+                d = dedup.setdefault(key, {'n': 0, 'first': blk[:3000], 'inrepo': inrepo}); d['n'] += 1
+        for key, d in dedup.items():
+            if d['inrepo']:
+                for _ in range(d['n']): fold.viol(key, 1.0, {'report': d['first'], 'count': d['n']})
+            else:
+                fold.notes.append('ThreadSanitizer report without a frame in /repo/include (not attributed to manif): ' + key)
+        spec = {'level': 'exploration', 'rule': '%d launches of the TSan-instrumented monitor with %s threads (round robin), each launch releasing its threads from a spinning barrier so that the first use in the process of every function-local static '
+                '(Identity, setIdentity zero, Zero, every Generator table, InnerWeights, the constant Jacobians/adjoints of SO2 and Rn) of 11 group instantiations happens concurrently; every thread then runs 22 const operations per group on shared const '
+                'elements, tangents and Map<const> views in a per-thread shuffled order with random sched_yield/nanosleep injections (off in every third launch); per-thread results are compared bit for bit with a single-threaded run; a cell is (group, thread count); '
+                'distinct first-use schedules are counted through an atomic ticket taken outside the library calls' % (launches, tcounts),
+                'assumptions': ['ThreadSanitizer (gcc 12) sees all synchronisation involved (C++11 static-init guards are intercepted)', 'Random()/setRandom() use rand() and are not const operations: excluded']}
+        return finish(p, tier, seed, fold, spec, t0, harness_fail=fail, extra_cov={'launches': launches, 'thread_counts': tcounts, 'tsan_reports': nrep, 'tsan_report_keys': sorted(dedup)[:20],
+                                                                                  'distinct_first_use_signatures': len(sigs)})
+    return {'bins': bins, 'run': run}
+REGISTRY['C14'] = c14_spec()
+
 def c17_spec():
     groups = ['SE2', 'SO3', 'SE3', 'SGAL3', 'R3', 'BT1']
     def bins(tier):
@@ -318,6 +385,7 @@ REGISTRY['C19'] = c19_spec()
 # MANIFEST metadata
 # ------------------------------------------------------------------------------------------------
 ENGINES = [
+    {'name': 'tsan launcher', 'path': '/verif/harness/c14_threads.cpp', 'serves_properties': ['C14'], 'kind_free_text': 'ThreadSanitizer build launched many times; reports parsed from log_path files'},
     {'name': 'history monitor', 'path': '/verif/harness/c08_history.cpp', 'serves_properties': ['C08'], 'kind_free_text': 'online per-step invariant checker over random/adversarial operation sequences'},
     {'name': 'child-per-case enumerator', 'path': '/verif/harness/c17_decasteljau.cpp', 'serves_properties': ['C17'], 'kind_free_text': 'fork per configuration, parent watchdog, sanitizer + assertion aborts are verdicts'},
     {'name': 'api-matrix builder', 'path': '/verif/harness/gen_c19.py', 'serves_properties': ['C19'], 'kind_free_text': 'generates one TU per (group, scalar) with one function per API cell; localises non-instantiable cells from compiler traces; executes the rest under ASan/UBSan'},
@@ -352,6 +420,9 @@ MANIFEST_META = {
     'C08': dict(engine='history monitor', design_ref='DESIGN.md 4/C08', technique='online invariant monitor over long random and adversarial operation histories (ASan+assertions build and NDEBUG -O2 build)',
                 text='After every step of histories of 6e4..2e7 steps per (group, schedule) every live element is checked against the library\'s own acceptance threshold recomputed in long double; the bound is enforced at each step, so it is independent of the history length by construction, and 1e5-step window maxima are recorded to show there is no trend; with assertions on, any escaping exception is a violation.',
                 note='Histories are random draws from a 21-operation alphabet plus five adversarial single-operation schedules; held on the histories executed. ' + NOTE_NUM),
+    'C14': dict(engine='tsan launcher', design_ref='DESIGN.md 4/C14', technique='ThreadSanitizer over many process launches with barrier-released concurrent first use of every static + bit-exact comparison with a single-threaded run',
+                text='Each launch releases 2..16 threads from a spinning barrier into the first use in the process of every function-local static of 11 group instantiations and then into 22 const operations per group on shared const elements, tangents and Map<const> views; ThreadSanitizer reports with a frame in /repo/include are violations (counted from log files, deduplicated by innermost manif frames), and every thread must reproduce the single-threaded values bit for bit.',
+                note='Schedules: 48 (quick) / 1500 (thorough) launches, each one first-use schedule (distinct schedule signatures are counted in the evidence); held on those schedules only. TSan sees only what gcc instruments; Random()/setRandom() are excluded (rand()).', ),
     'C15': dict(engine='ref-model differential monitor', design_ref='DESIGN.md 4/C15', technique='runtime monitor: end points, rejection of out-of-range parameters, SLERP vs model geodesic and left translation',
                 text='For three methods and arbitrary end velocities the end points are compared with A and B on the model, ten out-of-range parameters (incl. NaN, +-inf, -denorm_min, nextafter(1)) must raise, SLERP is compared with A*exp(t*log(A^-1 B)) evaluated on the model and with its left translate, and smoothing_phi is checked on a 20000-point grid per degree.',
                 note=NOTE_NUM + ' Out-of-range parameters are judged in the scalar type of the group (1+1e-9 is exactly 1 in float).'),
